@@ -329,7 +329,7 @@ def write_evidence(mod, ctx, wall, n_viol, extra=None):
 # the same check once more in a differently configured interpreter
 
 ALIEN_FLAGS = ['-O', '-bb']          # asserts removed; str() of bytes and bytes/str comparisons are errors
-ALIEN_ENV = {'LC_ALL': 'C', 'LANG': 'C', 'PYTHONUTF8': '0', 'PYTHONCOERCECLOCALE': '0', 'PYTHONIOENCODING': 'utf-8'}
+ALIEN_ENV = {'LC_ALL': 'C', 'LANG': 'C', 'TZ': 'NPT-5:45', 'PYTHONUTF8': '0', 'PYTHONCOERCECLOCALE': '0', 'PYTHONIOENCODING': 'utf-8'}
 ALIEN_N = {'quick': 150, 'thorough': 2000}
 
 
